@@ -735,6 +735,21 @@ func (v *MaryTransactionOutputValue) UnmarshalCBOR(data []byte) error {
 	if _, err := cbor.Decode(data, &tmp); err != nil {
 		return err
 	}
+	// Output quantities are unsigned 64-bit values in every era; only mint
+	// fields may carry negative quantities
+	if tmp.Assets != nil {
+		for _, policyId := range tmp.Assets.Policies() {
+			for _, assetName := range tmp.Assets.Assets(policyId) {
+				qty := tmp.Assets.Asset(policyId, assetName)
+				if qty != nil && !qty.IsUint64() {
+					return fmt.Errorf(
+						"transaction output asset quantity out of range: %s",
+						qty.String(),
+					)
+				}
+			}
+		}
+	}
 	*v = MaryTransactionOutputValue(tmp)
 	return nil
 }
